@@ -78,6 +78,7 @@ static void tm_fire(struct tmodel *m) { m->armed = 0; m->t->handler(m->t->handle
 #define K_RESPONSE 2
 #define K_ROUTED 3
 #define K_OTHER 4
+#define K_FAILED 5
 struct sent {
 	const struct peer *to; int kind;
 	int id_type; int id_int; double id_double; char id_str[20];   /* response / routed id, or fetch id of an event */
@@ -108,9 +109,13 @@ static int scn_send(const struct peer *p, char *rendered, size_t len)
 	(void)rendered; (void)len;
 	CHECK(p != dead_peer, "C05.no_send_through_released_transport");
 	int me = sends++;
+	/* one log slot per send ATTEMPT (the slot index never depends on a symbolic fault: a symbolic index would
+	   defeat constant propagation); a failed attempt leaves kind = K_FAILED */
+	__CPROVER_assume(me < MAXLOG);
+	struct sent *s = &LOG[me];
+	nlog = me + 1;
+	s->to = p; s->kind = K_FAILED;
 	if (me == failing_send || p == failing_peer) return -1;
-	__CPROVER_assume(nlog < MAXLOG);
-	struct sent *s = &LOG[nlog++];
 	const cJSON *m = model_last_printed;
 	s->to = p; s->kind = K_OTHER; s->has_value = 0; s->is_error = 0; s->has_result = 0; s->event = 0; s->path[0] = 0; s->id_str[0] = 0; s->id_type = 0;
 	const cJSON *method = cJSON_GetObjectItem(m, "method");
@@ -121,6 +126,9 @@ static int scn_send(const struct peer *p, char *rendered, size_t len)
 		s->kind = K_EVENT; s->event = ev->valuestring[0];
 		record_id(s, method);
 		const cJSON *path = cJSON_GetObjectItem(params, "path");
+#ifdef DBG
+		CHECK(path != 0, "C01.dbg_path_item_found"); if (path) CHECK(path->valuestring && path->valuestring[0] == 'a', "C01.dbg_path_item_a");
+#endif
 		if (path) cpystr(s->path, sizeof(s->path), path->valuestring);
 		const cJSON *v = cJSON_GetObjectItem(params, "value");
 		if (v) { s->has_value = 1; s->value_int = v->valueint; }
@@ -153,6 +161,7 @@ static int count_responses(const struct peer *to) { int n = 0; for (int i = 0; i
 static int count_kind(const struct peer *to, int kind) { int n = 0; for (int i = 0; i < nlog; i++) if (LOG[i].kind == kind && LOG[i].to == to) n++; return n; }
 static struct sent *last_of(const struct peer *to, int kind) { for (int i = nlog - 1; i >= 0; i--) if (LOG[i].kind == kind && LOG[i].to == to) return &LOG[i]; return 0; }
 static void reset_log(void) { nlog = 0; sends = 0; }
+static int delivered(void) { int n = 0; for (int i = 0; i < nlog; i++) if (LOG[i].kind != K_FAILED) n++; return n; }
 
 /* ---- peers */
 static void mkpeer(struct peer *p, bool local)
@@ -176,13 +185,23 @@ static cJSON *mkreq_id(const char *method, cJSON *id, cJSON *params)
 	return r;
 }
 static cJSON *mkreq(const char *method, int id, cJSON *params) { return mkreq_id(method, cJSON_CreateNumber(id), params); }
-static cJSON *path_params(const char *path, int val)
+/* NO_VALUE is a concrete marker: the shape of a request never depends on a symbolic value */
+#define NO_VALUE (-1)
+static cJSON *mknumber(int v)
+{
+	/* cJSON_CreateNumber branches on the value (saturation); build the node without control flow on symbolic data */
+	cJSON *n = cJSON_CreateNumber(0);
+	n->valueint = v; n->valuedouble = (double)v;
+	return n;
+}
+static cJSON *path_params_(const char *path, int has_value, int val)
 {
 	cJSON *p = cJSON_CreateObject();
 	cJSON_AddItemToObject(p, "path", cJSON_CreateString(path));
-	if (val >= 0) cJSON_AddItemToObject(p, "value", cJSON_CreateNumber(val));
+	if (has_value) cJSON_AddItemToObject(p, "value", mknumber(val));
 	return p;
 }
+#define path_params(path, val) path_params_(path, (#val)[0] != 'N', val)
 static cJSON *fetch_params(const char *id)
 {
 	cJSON *fp = cJSON_CreateObject();
